@@ -11,6 +11,7 @@ IMPORTS = ["FcModel.PyLite"]
 FUNCS = [
     ("cliFileTypeMapCall", T.CM, "FileTypeMap.__call__"),
     ("cliMakeFileTypeMap", T.CM, "_make_file_type_map"),
+    ("cliFileTypeMapInit", T.CM, "FileTypeMap.__init__"),
 ]
 
 
